@@ -35,6 +35,7 @@ type Reply struct {
 	Msg    string
 	Closed bool   // connection closed by the server before/without a complete reply
 	NoReply bool  // server is waiting for more input and has sent nothing (wedged or noreply)
+	Budget  bool  // the step budget of the wait ran out while the server was still running: inconclusive
 	Malformed string
 	Raw    []byte
 }
@@ -205,11 +206,17 @@ func (c *PClient) ReadReply() Reply {
 			return Reply{NoReply: true}
 		}
 		have := len(c.end.Peek())
-		ok := w.WaitCondSteps("reply:"+c.name, replyWaitSteps, func() bool {
+		budget := int64(replyWaitSteps)
+		if w.Cfg.StmtYield {
+			budget *= 4
+		}
+		ok := w.WaitCondSteps("reply:"+c.name, budget, func() bool {
 			return len(c.end.Peek()) > have || c.end.ServerClosed() || c.conn.BlockedInRead()
 		})
 		if !ok {
-			return Reply{NoReply: true, Malformed: "no reply within 150000 scheduler steps"}
+			// the server task is neither blocked in Read nor finished: it (or the background
+			// loops) consumed the whole step budget. Not a verdict about the server.
+			return Reply{NoReply: true, Budget: true}
 		}
 	}
 }
